@@ -75,7 +75,8 @@ def build_oracle():
     newest = max(os.path.getmtime(x) for x in srcs)
     if os.path.exists(ORACLE) and os.path.getmtime(ORACLE) >= newest:
         return True, "up to date"
-    rc, out = C.sh(["sh", os.path.join(ORA_DIR, "build.sh"), C.COQ], timeout=600)
+    with C.GlobalLock("oracle"):
+        rc, out = C.sh(["sh", os.path.join(ORA_DIR, "build.sh"), C.COQ], timeout=600)
     return rc == 0 and os.path.exists(ORACLE), out
 
 
